@@ -433,8 +433,9 @@ fn write_std(
 ) -> WriteResult {
     let start_pos = f.pos()?;
 
-    f.write_u16(std.objects.len() as u16)?;
-    f.write_u16(std.objects.values().map(|x| x.quads.len()).sum::<usize>() as u16)?;
+    let num_quads = std.objects.values().map(|x| x.quads.len()).sum::<usize>();
+    f.write_u16(crate::io::checked_field(emitter, "number of objects", std.objects.len() as i64)?)?;
+    f.write_u16(crate::io::checked_field(emitter, "number of quads", num_quads as i64)?)?;
 
     let instances_offset_pos = f.pos()?;
     f.write_u32(0)?;
